@@ -169,16 +169,20 @@ pub fn run(args: &Args, out: &mut Out) {
         let res = std::panic::catch_unwind(|| {
             let tracer = trippy_core::Builder::new(target).source_addr(Some(source)).max_rounds(Some(1)).build().unwrap();
             let r = tracer.run();
-            (r.is_err(), r.err().map(|e| e.to_string()), tracer.snapshot().error().map(ToString::to_string))
+            let before = tracer.snapshot().error().map(ToString::to_string);
+            // a request to clear the trace data does not make the tracer run again: the error must stay visible
+            tracer.clear();
+            (r.is_err(), r.err().map(|e| e.to_string()), before, tracer.snapshot().error().map(ToString::to_string))
         });
         let input = format!("startup {}", if v6 { 6 } else { 4 });
         match res {
             Err(_) => out.case(&input, "fault:panic", "FAIL:C09:panic_at_startup"),
-            Ok((is_err, e, snap)) => {
+            Ok((is_err, e, snap, after_clear)) => {
                 let mut fails = vec![];
                 if !is_err { fails.push("C09:run_with_an_unusable_source_address_returned_ok".to_string()); }
                 if is_err && snap != e { fails.push("C09:startup_error_not_visible_in_the_snapshot".to_string()); }
-                out.case(&input, &format!("err={} visible={}", u8::from(is_err), u8::from(snap.is_some())), &if fails.is_empty() { "ok".to_string() } else { format!("FAIL:{}", fails.join(";")) });
+                if is_err && after_clear != e { fails.push("C09:error_of_the_ended_run_no_longer_visible_in_snapshots_after_clear()".to_string()); }
+                out.case(&input, &format!("err={} visible={} after_clear={}", u8::from(is_err), u8::from(snap.is_some()), u8::from(after_clear.is_some())), &if fails.is_empty() { "ok".to_string() } else { format!("FAIL:{}", fails.join(";")) });
             }
         }
     }
